@@ -122,12 +122,24 @@ def diff_calls(ctx, fn: FuncInfo) -> list[tuple[ast.Call, ast.expr, ast.expr]]:
 
 
 def changeset_calls(ctx, fn: FuncInfo) -> list[ast.Call]:
+    """ChangeSet(...) constructions of fn, including those made through a method of its class whose whole body is `return ChangeSet(...)`
+    (written back in fn's own terms; a public name keeps such a helper out of the inliner's normal form)."""
+    from .derive import expand_predicate
+
     r = ctx.resolver(fn)
-    return [
-        n
-        for n in walk_no_nested(fn.node)
-        if isinstance(n, ast.Call) and r.callee_qname(n) == "codemodder.codetf.ChangeSet"
-    ]
+    out = []
+    for n in walk_no_nested(fn.node):
+        if not isinstance(n, ast.Call):
+            continue
+        if r.callee_qname(n) == "codemodder.codetf.ChangeSet":
+            out.append(n)
+        elif isinstance(n.func, ast.Attribute) and isinstance(n.func.value, ast.Name) and n.func.value.id == "self":
+            e = expand_predicate(ctx, fn, n, depth=2)
+            if e is not n and isinstance(e, ast.Call) and (last_attr(e.func) or "") == "ChangeSet":
+                for x in ast.walk(e):
+                    ast.copy_location(x, n)
+                out.append(e)
+    return out
 
 
 def kwarg(call: ast.Call, name: str):
